@@ -875,7 +875,14 @@ def rule_psbt_whole_key(ctx: Ctx, rep: Report) -> None:
     rep.floor(rule, 30)
 
 
+def rule_own_fields(ctx: Ctx, rep: Report) -> None:
+    """C05.own_fields: an object hands its own fields to the functions it delegates to (see sigcommon.rule_own_fields_forwarded)."""
+    from rules.sigcommon import rule_own_fields_forwarded
+    rule_own_fields_forwarded(ctx, rep, "C05.own_fields", ('btclib.tx', 'btclib.block.block_header', 'btclib.p2p', 'btclib.bip32.key_origin', 'btclib.key'), 10)
+
+
 RULES = [
+    ("C05.own_fields", rule_own_fields),
     ("C05.psbt_whole_key", rule_psbt_whole_key),
     ("C05.witness_gate", rule_witness_gate),
     ("C05.layout", rule_layout),
